@@ -53,10 +53,11 @@ def NotifyOnTime : Ev → Prop
   | _ => True
 
 theorem barTrace_onTime (cfg : Cfg) (sc : Script) (row : Nat) (ts : Int) (st : St) (price : Option Int)
+    (hdone : (barParts cfg sc row ts st price).nt.2.2 = true)
     (hcur : ∀ a ∈ st.cur, a.stamp = ts) :
     ∀ e ∈ (barParts cfg sc row ts st price).trace row ts, NotifyOnTime e := by
   intro e he
-  have hbook := barParts_book cfg sc row ts st price
+  have hbook := barParts_book cfg sc row ts st price hdone
   simp only [] at hbook
   obtain ⟨_, hc, _, hn⟩ := hbook
   cases e with
@@ -88,7 +89,8 @@ theorem runBars_book (cfg : Cfg) (sc : Script) :
     obtain ⟨h1, h2, h3⟩ := runBars_cons_ok h
     obtain ⟨price, hpr, _, hstep⟩ := barStep_ok h1
     obtain ⟨ih1, ih2, ih3, ih4⟩ := runBars_book cfg sc bars (row + 1) _ h2
-    have hbook := barParts_book cfg sc row ts st price
+    have hdone := barStep_notify_done h1 hpr
+    have hbook := barParts_book cfg sc row ts st price hdone
     simp only [] at hbook
     obtain ⟨b1, b2, b3, b4⟩ := hbook
     rw [h3]
@@ -102,7 +104,7 @@ theorem runBars_book (cfg : Cfg) (sc : Script) :
       cases bars <;> simp
     · intro hcur e he
       rcases List.mem_append.mp he with h' | h'
-      · exact barTrace_onTime cfg sc row ts st price (fun a ha => hcur a ha ts (by simp)) e h'
+      · exact barTrace_onTime cfg sc row ts st price hdone (fun a ha => hcur a ha ts (by simp)) e h'
       · exact ih4 (by intro a ha; cases ha) e h'
 
 end Demeter.Core
